@@ -121,13 +121,4 @@ def ClockMonotone (t0 : Int) : List Req → Prop
 /-- the seven reason codes of the table -/
 def reasons : List Reason := [.noProof, .malformed, .unknownKid, .expired, .notYetValid, .badMac, .replayed]
 
-/-- what a caller may learn from a refusal (§6 "Rejection is uniform"): HTTP 401, the single reason code
-`proxy_required`, one fixed detail string, and a proxy note that depends on configuration only. -/
-structure Refusal where
-  status : Nat
-  reason : Str
-  detail : Str
-  proxyHint : Str
-deriving Repr, DecidableEq
-
 end VgiVerif.C22.Spec
